@@ -363,6 +363,7 @@ func findBug(tb tb, deadline time.Time, checks int, seed uint64, prop func(*T)) 
 
 		seed += uint64(iter)
 		r.init(seed)
+		t.draws = 0
 		start := time.Now()
 		if verifOn {
 			verifEmit("phase", "kind", "gen", "iter", iter, "seed", seed, "valid", valid, "invalid", invalid)
